@@ -13,6 +13,8 @@ package bfe_http2
 // `unwind` outcome under the registered unwind bound.
 
 import (
+	http "github.com/bfenetworks/bfe/bfe_http"
+	"github.com/bfenetworks/bfe/bfe_http2/hpack"
 	vrt "github.com/bfenetworks/bfe/zz_vrt"
 )
 
@@ -155,4 +157,115 @@ func VerifC36_closeStream() {
 		sc.processPriority(&PriorityFrame{FrameHeader: FrameHeader{Type: FramePriority, StreamID: nodes[1].id, Length: 5}, PriorityParam: pp})
 		assertAcyclicC36(nodes, n)
 	}
+}
+
+// cyclicC36: concrete check that some stream object does not reach nil within n parent steps.
+func cyclicC36(nodes []*stream, n int) bool {
+	for i := 0; i < len(nodes); i++ {
+		p := nodes[i]
+		for k := 0; k < n && p != nil; k++ {
+			p = p.parent
+		}
+		if p != nil {
+			return true
+		}
+	}
+	return false
+}
+
+// VerifC36_history: histories instead of one step - a guard against code that keeps derived data about the
+// tree (cached depths, child lists, ...) which the one-step harness cannot name and therefore cannot put
+// into an arbitrary state. Four freshly opened streams 1,3,5,7 (flat forest, exactly what processHeaders
+// creates) receive K PRIORITY frames through the real processPriority; the tree must be acyclic after
+// each of them. Symmetry reduction: the first frame that changes anything in a flat forest makes some
+// stream depend on another one, w.l.o.g. 3 on 1 (frames before it are no-ops and a history that starts
+// with no-ops is a shorter history); the remaining K-1 frames enumerate every (stream, dependency) pair
+// over the four streams and dependency 0. Exclusive only with EXCL=1.
+func VerifC36_history() {
+	if vrt.Param("EXCL", 0) == 1 {
+		vrt.MapOrder(true) // only the exclusive loop ranges over the map (not natively replayable then)
+	}
+	sc, _ := newConnH2()
+	ids := []uint32{1, 3, 5, 7}
+	nodes := make([]*stream, len(ids))
+	for i, id := range ids {
+		nodes[i] = &stream{id: id, state: stateOpen}
+		attachStreamH2(sc, nodes[i])
+		sc.streams[id] = nodes[i]
+		sc.curOpenStreams++
+	}
+	sc.maxStreamID = 7
+	k := vrt.Param("K", 4)
+	for step := 0; step < k; step++ {
+		var id, dep uint32
+		excl := false
+		if step == 0 {
+			id, dep = 3, 1
+		} else {
+			id = ids[vrt.Choose("stream", len(ids))]
+			d := vrt.Choose("dep", len(ids)+1)
+			if d > 0 {
+				dep = ids[d-1]
+			}
+			if dep == id {
+				vrt.Assume(false) // self-dependency: covered by VerifC36_adjust, a no-op here
+			}
+		}
+		if vrt.Param("EXCL", 0) == 1 {
+			excl = vrt.Choose("exclusive", 2) == 1
+		}
+		sc.processPriority(&PriorityFrame{FrameHeader: FrameHeader{valid: true, Type: FramePriority, StreamID: id, Length: 5},
+			PriorityParam: PriorityParam{StreamDep: dep, Exclusive: excl, Weight: 15}})
+		cyc := cyclicC36(nodes, len(nodes))
+		vrt.Assert(!cyc, "C36/no-stream-is-its-own-ancestor")
+		if cyc {
+			return // a later ancestor walk over a cyclic graph would not end
+		}
+	}
+	vrt.Cover("C36/history-done")
+}
+
+type fakeHandlerC36 struct{}
+
+func (fakeHandlerC36) ServeHTTP(w http.ResponseWriter, r *http.Request) {}
+
+// VerifC36_headers: the other way priorities enter the tree - a HEADERS frame with the PRIORITY flag
+// opening a new stream, through the real processHeaders (stream creation, insertion into sc.streams,
+// priority), from every acyclic parent graph over <= N existing stream objects. The PRIORITY payload is
+// fully symbolic, so StreamDep may name any open stream, no stream, or the new stream itself.
+func VerifC36_headers() {
+	vrt.MapOrder(true)
+	n := vrt.Range("n", 0, vrt.Param("N", 2))
+	sc, _ := newConnH2()
+	sc.handler = fakeHandlerC36{}
+	sc.sawFirstSettings = true
+	nodes, open, streams := buildForestC36(n) // ids 1,3,.. with SYMIDS=0
+	sc.streams = streams
+	for i := 0; i < n; i++ {
+		if open[i] {
+			attachStreamH2(sc, nodes[i])
+			sc.curOpenStreams++
+		}
+	}
+	newID := uint32(2*n + 1)
+	sc.maxStreamID = newID - 2
+	if n == 0 {
+		sc.maxStreamID = 0
+	}
+	pp := PriorityParam{StreamDep: vrt.U32("dep"), Exclusive: vrt.Bool("exclusive"), Weight: vrt.Byte("weight")}
+	vrt.Assume(pp.StreamDep < 1<<31)
+	hf := &HeadersFrame{FrameHeader: FrameHeader{valid: true, Type: FrameHeaders, Flags: FlagHeadersEndHeaders | FlagHeadersEndStream | FlagHeadersPriority, StreamID: newID}, Priority: pp}
+	f := &MetaHeadersFrame{HeadersFrame: hf, Fields: []hpack.HeaderField{{Name: ":method", Value: "GET"}, {Name: ":scheme", Value: "https"}, {Name: ":path", Value: "/"}, {Name: "host", Value: "a"}}}
+
+	err := sc.processHeaders(f)
+	vrt.Cover("C36/headers-returned")
+	st := sc.streams[newID]
+	if err == nil {
+		vrt.Assert(st != nil, "C36/prioritised-headers-open-the-stream")
+	}
+	all := nodes
+	if st != nil {
+		all = append(append([]*stream(nil), nodes...), st)
+	}
+	assertAcyclicC36(all, len(all))
 }
